@@ -24,7 +24,7 @@ func (propC10) Rule() string {
 }
 func (propC10) Runs(tier string) int {
 	if tier == "thorough" {
-		return 300000
+		return 1500000
 	}
 	return 30000
 }
